@@ -12,7 +12,7 @@ RULE = ("block 'json': arrays of 0-3 dims, int/float data with NaN, int/float/st
         "dims with int/float/str labels in any order, attrs (str/int/float/list) at dataset, variable and axis level, written by a sequence "
         "of 1-6 steps mixing Dataset.write_nc, DimArray.write_nc(mode w / a / a+), open_nc(mode=a)[name]=array and rewrites, in NETCDF4 and "
         "NETCDF3_CLASSIC, then read whole, per variable and as shuffled name subsets; block 'standin': the stand-in's own indexing vs plain "
-        "loops. class = (block, format, step kinds, variable kinds, ndims) ; trivial = empty dataset")
+        "loops; JSON metadata includes tuples (expected back as their JSON image). class = (block, format, step kinds, variable kinds, ndims) ; trivial = empty dataset")
 ANCHORS = ["dimarraycls.to_jsondict", "dimarraycls.from_jsondict", "nc.write", "nc.read", "nc.maybe_encode_values", "nc._maybe_open_file",
            "dataset.write_nc", "dimarraycls.write_nc"]
 # entry points the workload calls itself; the other anchors are helpers behind them (counted as evidence only)
